@@ -16,3 +16,39 @@ nm_size_t verif_binary_2d_size_4(a2_t out_shape, a2_t lhs_shape, a2_t rhs_shape)
 { auto e = ix::binary_2d_simd_enumerator(meta::as_type<4ul>{}, out_shape, lhs_shape, rhs_shape); return e.size(); }
 tix3_t verif_binary_2d_at_4(a2_t out_shape, a2_t lhs_shape, a2_t rhs_shape, nm_size_t i)
 { auto e = ix::binary_2d_simd_enumerator(meta::as_type<4ul>{}, out_shape, lhs_shape, rhs_shape); return e[i]; }
+a2_t verif_binary_2d_shape_8(a2_t out_shape, a2_t lhs_shape, a2_t rhs_shape)
+{ return ix::binary_2d_simd_shape(meta::as_type<8ul>{}, out_shape, lhs_shape, rhs_shape); }
+nm_size_t verif_binary_2d_size_8(a2_t out_shape, a2_t lhs_shape, a2_t rhs_shape)
+{ auto e = ix::binary_2d_simd_enumerator(meta::as_type<8ul>{}, out_shape, lhs_shape, rhs_shape); return e.size(); }
+tix3_t verif_binary_2d_at_8(a2_t out_shape, a2_t lhs_shape, a2_t rhs_shape, nm_size_t i)
+{ auto e = ix::binary_2d_simd_enumerator(meta::as_type<8ul>{}, out_shape, lhs_shape, rhs_shape); return e[i]; }
+
+// ---- 2-d reduction enumerators (evaluator/ufunc.hpp eval_reduction): HORIZONTAL = reduce the last axis (packed + identity-padded
+//      tail, accumulate at the row end), VERTICAL = reduce a leading axis (packed accumulate + scalar accumulate per column)
+using hk_t = meta::as_type<ix::ReductionKind::HORIZONTAL>;
+using vk_t = meta::as_type<ix::ReductionKind::VERTICAL>;
+a2_t verif_reduction_h_shape_4(a2_t out_shape, a2_t inp_shape)
+{ return ix::reduction_2d_shape(hk_t{}, meta::as_type<4ul>{}, inp_shape, out_shape); }
+a2_t verif_reduction_v_shape_4(a2_t out_shape, a2_t inp_shape)
+{ return ix::reduction_2d_shape(vk_t{}, meta::as_type<4ul>{}, inp_shape, out_shape); }
+tix2_t verif_reduction_h_at_4(a2_t out_shape, a2_t inp_shape, nm_size_t i)
+{ auto e = ix::reduction_2d_enumerator(hk_t{}, meta::as_type<4ul>{}, out_shape, inp_shape); return e[i]; }
+tix2_t verif_reduction_v_at_4(a2_t out_shape, a2_t inp_shape, nm_size_t i)
+{ auto e = ix::reduction_2d_enumerator(vk_t{}, meta::as_type<4ul>{}, out_shape, inp_shape); return e[i]; }
+nm_size_t verif_reduction_h_size_4(a2_t out_shape, a2_t inp_shape)
+{ auto e = ix::reduction_2d_enumerator(hk_t{}, meta::as_type<4ul>{}, out_shape, inp_shape); return e.size(); }
+a2_t verif_reduction_h_shape_8(a2_t out_shape, a2_t inp_shape)
+{ return ix::reduction_2d_shape(hk_t{}, meta::as_type<8ul>{}, inp_shape, out_shape); }
+a2_t verif_reduction_v_shape_8(a2_t out_shape, a2_t inp_shape)
+{ return ix::reduction_2d_shape(vk_t{}, meta::as_type<8ul>{}, inp_shape, out_shape); }
+tix2_t verif_reduction_h_at_8(a2_t out_shape, a2_t inp_shape, nm_size_t i)
+{ auto e = ix::reduction_2d_enumerator(hk_t{}, meta::as_type<8ul>{}, out_shape, inp_shape); return e[i]; }
+tix2_t verif_reduction_v_at_8(a2_t out_shape, a2_t inp_shape, nm_size_t i)
+{ auto e = ix::reduction_2d_enumerator(vk_t{}, meta::as_type<8ul>{}, out_shape, inp_shape); return e[i]; }
+
+// ---- n-d -> 2-d regrouping used by the reduction enumerator with an axis (run-time rank: utl::static_vector<size_t,8>)
+using sv_t = nmtools::utl::static_vector<nm_size_t,8>;
+a2_t verif_reduction_nd_reshape_h(sv_t inp_shape)
+{ return ix::reduction_nd_reshape(hk_t{}, meta::as_type<4ul>{}, inp_shape, inp_shape, -1); }
+a2_t verif_reduction_nd_reshape_v(sv_t inp_shape, int axis)
+{ return ix::reduction_nd_reshape(vk_t{}, meta::as_type<4ul>{}, inp_shape, inp_shape, axis); }
